@@ -149,11 +149,11 @@ CLAIMED = {
          "Rocq proof of hmtx/loca/glyf-points/components/cmap4-6-12-13/kern0 codec round trips + byte-exact correspondence + generated-content round-trip sweeps"),
  "C03": ("Theorems over the Gallina transcription of the TTX text layer: escape / escapeattr followed by a specification-level XML "
          "un-escaper return every string of legal XML characters (attribute values up to exactly the TAB/LF->space normalisation the property "
-         "allows), by induction over the string; hexStr/deHexStr round-trip every byte string; num2binary/binary2num (bit fields as groups of binary digits) round-trip every value that fits its width. The transcriptions AND the specification-level "
+         "allows), by induction over the string; hexStr/deHexStr round-trip every byte string; num2binary/binary2num (bit fields as groups of binary digits) round-trip every value that fits its width; the TrueType instruction disassembler and assembler (ttProgram, token level, over instruction tables regenerated from the source on every run): whatever toXML writes for a program, fromXML assembles back into the same bytecode (program_roundtrip). The transcriptions AND the specification-level "
          "un-escaper are tied by correspondence to xmlWriter and to expat. Per-table toXML/fromXML is covered on the implementation: corpus fonts "
          "covering every table tag and generated fonts (instruction streams with every PUSH boundary value, glyph names colliding as file names, "
          "COLRv1) dumped with every option set into mixed-case paths and re-imported — all option sets give the same table bytes, generation 1 "
-         "and 2 are byte and text fixed points, generation 0 and 1 agree through HarfBuzz (testing). Known finding F11 (pre-1970 timestamps).",
+         "and 2 are byte and text fixed points, generation 0 and 1 agree through HarfBuzz and through the object model (point flags, coordinates, instructions, CFF dictionary numbers; edited inputs) (testing). Known finding F11 (pre-1970 timestamps).",
          "Rocq proof of escaping round trips + correspondence to xmlWriter/expat + TTX generation/option sweeps"),
  "C12": ("Theorem generalize_preserves_all: for ALL 13 Type 2 path operators (incl. the alternating hv/vhcurveto families, rcurveline, rlinecurve) and EVERY "
          "argument list the generaliser accepts, interpreting the generalised commands draws exactly what the interpreter draws for the "
